@@ -32,15 +32,20 @@ MANIFEST = dict(
          'completed within 300 polls; process exit status (Worker.__call__/_do_exit) is EX_RECYCLE exactly when workloop '
          'returned it; parent: accept callback before any result callback for streams in pipe order, '
          'owner pid = pid of the ACK, cancelled+handshake => NACK, no callback, no owner; ApplyResult._ack/_set as '
-         'translated from pool.py on every run equal the model\'s p_ack/p_set (state and ordered hook calls); every job '
+         'translated from pool.py on every run equal the model\'s p_ack/p_set (state and ordered hook calls), with the hooks of _ack '
+         '(timeout hook, accept callback) as a point where _cancel() can land: _ack reads the cancellation flag once (counted on every run), '
+         'a cancellation landing after that reading changes only the flag, the answer is determined by the first reading (accepted => ACK '
+         'whatever the callback does, no answer iff it raises), accept callback and NACK never occur in one _ack, closed handshake: '
+         'accept callback ran and returned => the worker runs the job; every job '
          'announced and left behind is ACK,RUN,READY or ACK + the parent\'s NACK as first SYN answer; over ONE shared SYN '
          'stream every answer is consumed by the job it was sent for; closed handshake (SYN answer := the parent\'s reaction '
          'to the ACK): with the two switches linked (synack on, workers have a SYN queue, response delivered) a job '
          'cancelled before acceptance is never run / counted in any run, one switch without the other starves the worker '
          'or -- plain billiard Pool(synack=True) -- runs the cancelled job (refuted theorem + witness, reproduced on the real '
          'code). Correspondence of the real workloop / ResultHandler+ApplyResult on scripted cases (per-job and shared SYN '
-         'stream, up to 130 empty polls before an answer, real workloop||real parent handshake cases, a real Pool), every '
-         'event compared in Coq; monitors on the real traces.',
+         'stream, up to 130 empty polls before an answer, real workloop||real parent handshake cases incl. accept callbacks that cancel '
+         'their own job or raise and cancellations landing in the timeout hook, a real Pool), every '
+         'event compared in Coq; monitors on the real traces (incl. accepted => run and answered).',
     note='Trusted: Coq kernel, translate/kernels/worker.py and workerparent.py (+pykernel.FuncTr), Lib/PyVal.v, harness fakes (scripted '
          'pipes, sentinel, clock, mem_rss, counter, pickling put, faked os._exit). Residue: signal delivery '
          '(C05/C08; here an oracle), a put of ACK that raises, os.getpid() being the real pid, SIGINT ignoring.',
@@ -102,9 +107,18 @@ def c_inev(e):
     return SIMPLE[e[0]]
 
 
-def c_hinev(e):
+def h_flags(e, accept_cb):
+    """(cancelled before acceptance, accept callback raises, a _cancel() lands while _ack runs) of a
+    handshake job event; a cancellation issued by the accept callback (late = 2) needs the callback"""
+    cancel = len(e) > 9 and bool(e[9])
+    raises = len(e) > 10 and bool(e[10])
+    late = e[11] if len(e) > 11 else 0
+    return cancel, raises, late == 1 or (late == 2 and bool(accept_cb))
+
+
+def c_hinev(e, accept_cb=True):
     if e[0] == 'msg':
-        return '(RMsg (mk_hjob %s %s))' % (c_req(e), cbool(len(e) > 9 and bool(e[9])))
+        return '(RMsg (mk_hjob %s %s %s %s))' % ((c_req(e),) + tuple(cbool(b) for b in h_flags(e, accept_cb)))
     return SIMPLE[e[0]]
 
 
@@ -183,12 +197,14 @@ def c_wobs(o):
         copt(o['ensure'], cbool), cz(o['reads']), cz(o['sleeps']))
 
 
-def c_pev(e):
+def c_pev(e, accept_cb=True):
     if e[0] == 'cancel':
         return 'PCancel'
     if e[0] == 'ack':
-        _, i, t, pid, fd, raises = e
-        return '(PAck %s %s %s %s %s)' % (oz(i), cz(t), cz(pid), oz(fd), cbool(raises))
+        _, i, t, pid, fd, raises = e[:6]
+        late = e[6] if len(e) > 6 else 0
+        return '(PAck %s %s %s %s %s %s)' % (oz(i), cz(t), cz(pid), oz(fd), cbool(raises),
+                                             cbool(late == 1 or (late == 2 and bool(accept_cb))))
     _, i, ok, v = e
     return '(PReady %s %s %s)' % (oz(i), cbool(ok), cz(v))
 
@@ -226,9 +242,9 @@ def c_pcfg(c):
 
 
 def c_pobs(o):
-    return '(%s, %s, %s, %s, %s, %s, %s)' % (
+    return '(%s, %s, %s, %s, %s, %s, %s, %s)' % (
         clist(o['log'], c_pout), cbool(o['accepted']), oz(o['pid']), oz(o['time']),
-        cbool(o['ready']), cbool(o['in_cache']), clist(o['pids']))
+        cbool(o['ready']), cbool(o['in_cache']), clist(o['pids']), cbool(o['cancelled_now']))
 
 
 def c_zz(p):
@@ -246,16 +262,18 @@ def to_coq(c, o):
                   error_cb=c['error_cb'])
         if c['mode'] == 'plain' and not o['synq_none']:
             raise Unrepresentable('Pool.get_process_queues returned a SYN queue')
-        po = ['(%s, %s, %s)' % (cz(int(j)), cbool(v['cancel']), c_pobs(v)) for j, v in sorted(o['parents'].items())]
+        po = ['(%s, (%s, %s, %s), %s)' % (cz(int(j)), cbool(v['cancel']), cbool(v['raises']), cbool(v['late_lands']),
+                                          c_pobs(v)) for j, v in sorted(o['parents'].items())]
         return '(HCase %s %s %s %s %s [%s])' % (
-            c_pcfg(pc), cbool(c['mode'] == 'linked'), c_cfg(c), clist(c['ins'], c_hinev), c_wobs(o), '; '.join(po))
+            c_pcfg(pc), cbool(c['mode'] == 'linked'), c_cfg(c),
+            clist(c['ins'], lambda e: c_hinev(e, c['accept_cb'])), c_wobs(o), '; '.join(po))
     if c['kind'] == 'w' and c.get('shared_syn'):
         return '(SCase %s %s %s)' % (c_cfg(c), clist(c['ins'], c_inev), c_wobs(o))
     if c['kind'] == 'w' and c.get('via_call'):
         return '(CCase %s %s %s %s)' % (c_cfg(c), clist(c['ins'], c_inev), c_wobs(o), c_cobs(o['call']))
     if c['kind'] == 'w':
         return '(WCase %s %s %s)' % (c_cfg(c), clist(c['ins'], c_inev), c_wobs(o))
-    return '(PCase %s %s %s)' % (c_pcfg(c), clist(c['evs'], c_pev), c_pobs(o))
+    return '(PCase %s %s %s)' % (c_pcfg(c), clist(c['evs'], lambda e: c_pev(e, c['accept_cb'])), c_pobs(o))
 
 
 # ------------------------------------------------------------------ generation
@@ -438,6 +456,8 @@ def boundary_wcases(full=True):
 PALPHA = ([['cancel']] +
           [['ack', None, 100, pid, fd, r] for pid in (77, 0) for fd in (9, None, 0) for r in (0, 1)] +
           [['ack', 2, 105, 78, 9, 0]] +
+          # a _cancel() lands while _ack runs: in the timeout hook (1) / issued by the accept callback (2)
+          [['ack', None, 100, 77, fd, r, late] for fd in (9, 9, None) for r in (0, 1) for late in (1, 2)] +
           [['ready', None, ok, 5] for ok in (0, 1)])
 
 
@@ -450,13 +470,21 @@ def gen_pcase(rng):
 def boundary_pcases(full):
     """all event lists up to length 3 (quick: 2) over a reduced alphabet, all 16 callback configs"""
     alpha = [['cancel'], ['ack', None, 100, 77, 9, 0], ['ack', None, 101, 78, None, 0],
-             ['ack', None, 100, 77, 9, 1], ['ready', None, 1, 5], ['ready', None, 0, 6]]
+             ['ack', None, 100, 77, 9, 1], ['ready', None, 1, 5], ['ready', None, 0, 6],
+             ['ack', None, 100, 77, 9, 0, 2]]          # the accept callback cancels its own job
+    # the other late-cancellation shapes, alone and followed by a second ACK / the result
+    late = [['ack', None, 100, 77, fd, r, lt] for fd in (9, None) for r in (0, 1) for lt in (1, 2)]
     out = []
     for send_ack, accept_cb, callback, error_cb in itertools.product((True, False), repeat=4):
         for n in range(0, 4 if full else 3):
             for evs in itertools.product(alpha, repeat=n):
                 out.append(dict(kind='p', job_known=True, send_ack=send_ack, accept_cb=accept_cb,
                                 callback=callback, error_cb=error_cb, evs=list(evs)))
+        if callback and error_cb:
+            for a in late:
+                for tail in ([], [['ack', None, 101, 77, 9, 0]], [['ready', None, 1, 5]], [['cancel'], ['ready', None, 0, 6]]):
+                    out.append(dict(kind='p', job_known=True, send_ack=send_ack, accept_cb=accept_cb,
+                                    callback=callback, error_cb=error_cb, evs=[a] + tail))
     return out
 
 
@@ -512,7 +540,9 @@ def gen_hcase(rng, mode=None):
             delay = [['timeout']] * rng.choice([61, 65])
         ins.append(['msg', 2 if rng.random() < 0.98 else 5, jid, rng.choice([None, None, 0, 3]), t, beh,
                     delay if c['synfd'] is not None else [], rng.choice([0, 50, 100, 101]),
-                    1 if rng.random() < 0.05 else 0, 1 if rng.random() < 0.3 else 0])
+                    1 if rng.random() < 0.05 else 0, 1 if rng.random() < 0.3 else 0,
+                    1 if rng.random() < 0.05 else 0,           # the accept callback raises
+                    rng.choice([0, 0, 0, 0, 0, 1, 2, 2])])     # a _cancel() lands while _ack runs
     if rng.random() < 0.9:
         ins.append(rng.choice(TERMINAL))
     c['ins'] = ins
@@ -532,6 +562,22 @@ def boundary_hcases():
                                  [['timeout']] * n if synfd is not None else [], 0, 0, cancel]
                                 for n, cancel in enumerate(pattern)] + [['shutdown']]
                     out.append(c)
+    # the hook point inside _ack: every combination of (cancelled before acceptance, accept callback raises,
+    # a _cancel() landing while _ack runs: no / from the timeout hook / by the accept callback itself) for the first
+    # of two jobs, and for the second of three
+    for mode, synfd in (('plain', None), ('linked', 9)):
+        for send_ack in (True, False):
+            for accept_cb in (True, False):
+                for cancel, raises, late in itertools.product((0, 1), (0, 1), (0, 1, 2)):
+                    if (raises or late == 2) and not accept_cb:
+                        continue
+                    for pos, njobs in ((0, 2), (1, 3)):
+                        c = dict(base, mode=mode, synfd=synfd, send_ack=send_ack, accept_cb=accept_cb, callback=True,
+                                 error_cb=True)
+                        c['ins'] = [['msg', 2, 20 + n, None, 200 + n, ['ret', n], [['timeout']] * (n % 2) if synfd else [],
+                                     0, 0] + ([cancel, raises, late] if n == pos else [0, 0, 0])
+                                    for n in range(njobs)] + [['shutdown']]
+                        out.append(c)
     return out
 
 
@@ -556,7 +602,11 @@ def monitors(c, o):
        M2 every job the worker announced (ACK) and then left behind (it polled for another job) got
           its READY, or was refused by the parent's NACK -- and a refused job is never executed;
        M3 (closed handshake) a job cancelled before acceptance under synack is never executed and no
-          result callback runs without the accept callback."""
+          result callback runs without the accept callback;
+       M4 (closed handshake) a job whose acceptance was announced to the caller -- its accept callback ran and
+          returned, the worker is recorded as its owner -- is run by the worker and answered (READY), whatever
+          the callback did (e.g. cancel the job: too late) and whatever landed on the handle meanwhile.  Judged
+          where the pool implements the handshake (linked, synack on, truthy descriptor) or has none (plain)."""
     out = []
     jobs = [e for e in c['ins'] if e[0] == 'msg']
     has_syn = c['synfd'] is not None and not (c['kind'] == 'h' and c['mode'] == 'plain')
@@ -599,6 +649,23 @@ def monitors(c, o):
                         % (j, {0: 'ACK', None: 'none'}.get(own[n], own[n]))))
         if ran and refused:
             out.append(('C03:refused-job-executed', 'job %s got NACK for its ACK and was executed' % j))
+        if c['kind'] == 'h':
+            par = parents.get(str(j), {})
+            lg = par.get('log', [])
+            hooked = c['mode'] == 'plain' or (c['mode'] == 'linked' and c['send_ack'] and bool(c['synfd']))
+            if hooked and not par.get('raises') and any(x[0] == 'cb_accept' for x in lg):
+                cut = n == len(acks) - 1 and o['exit'][0] in ('taskexc', 'terminated')   # the task itself ended the loop
+                if not ran or not (ready or cut):
+                    sent = [{0: 'ACK', 3: 'NACK'}.get(x[1], x[1]) for x in lg if x[0] == 'send_ack']
+                    out.append(('C03:accepted-job-not-run' if not ran else 'C03:accepted-job-without-result',
+                                'job %s was accepted by the parent (accept callback ran: %s, owner recorded: worker_pids()=%s, '
+                                'accepted()=%s) but the worker %s; the parent\'s answer to its ACK was %s%s' % (
+                                    j, [x for x in lg if x[0] == 'cb_accept'], par.get('pids'), par.get('accepted'),
+                                    'never ran it (no RUN, no READY)' if not ran else 'ran it and sent no READY',
+                                    sent or 'none',
+                                    '; _cancel() was called on the handle while _ack was running (%s), after _ack had '
+                                    'decided to accept' % ('by the accept callback itself' if par.get('late') == 2
+                                                           else 'from the timeout hook') if par.get('late_lands') else '')))
         if c['kind'] == 'h' and c['send_ack'] and len(jobs[n]) > 9 and jobs[n][9]:
             lg = parents.get(str(j), {}).get('log', [])
             if ran or not py_accept_first(lg):
@@ -725,7 +792,9 @@ def correspond(res, n):
                                        replay=dict(case=c, impl=o)))
 
     hist = dict(jobs={}, behaviours={}, quotas={}, syn_answers={}, exits={}, parent_lengths={}, via_call_status={},
-                syn_wait_polls={}, handshake_modes={}, cancelled_before_acceptance=0, shared_syn_stream=0)
+                syn_wait_polls={}, handshake_modes={}, cancelled_before_acceptance=0, shared_syn_stream=0,
+                cancelled_while_ack_runs={}, accept_callback_raises=0,
+                observation_O1_raising_accept_callback_leaves_worker_unanswered=0)
 
     def bump(d, k):
         d[str(k)] = d.get(str(k), 0) + 1
@@ -739,6 +808,17 @@ def correspond(res, n):
         if c['kind'] == 'h':
             bump(hist['handshake_modes'], '%s/synack=%s' % (c['mode'], c['send_ack']))
             hist['cancelled_before_acceptance'] += sum(1 for e in jobs if len(e) > 9 and e[9])
+            for e in jobs:
+                if len(e) > 11 and e[11]:
+                    bump(hist['cancelled_while_ack_runs'], {1: 'from the timeout hook', 2: 'by the accept callback'}[e[11]])
+                if len(e) > 10 and e[10]:
+                    hist['accept_callback_raises'] += 1
+            # observation O1 (docs/C03.md), seen on the real code: the accept callback of an accepted job raised, no
+            # answer was sent and the worker was left polling its SYN queue (the model says the same: code 0)
+            if c['mode'] == 'linked' and c['send_ack'] and c['synfd'] and o['exit'][0] == 'starved' and any(
+                    v.get('raises') and not v['cancel'] and any(x[0] == 'cb_accept' for x in v['log'])
+                    and not any(x[0] == 'send_ack' for x in v['log']) for v in o['parents'].values()):
+                hist['observation_O1_raising_accept_callback_leaves_worker_unanswered'] += 1
         if c.get('shared_syn'):
             hist['shared_syn_stream'] += 1
         for e in jobs:
@@ -764,8 +844,9 @@ def correspond(res, n):
                      'configurations + random lists + streams derived from the real worker outputs with cancellations '
                      'woven in; worker also over ONE shared SYN stream (60 %% of handshake scripts), 59..130 empty SYN polls '
                      'before a late answer, answers sent twice; closed handshake cases (real workloop || real ResultHandler + one '
-                     'ApplyResult per job, jobs cancelled before acceptance, modes plain / linked / response dropped) enumerated '
-                     'and random; 2 (thorough 4) scenarios on a real Pool with a real worker process; non-trivial = at least two '
+                     'ApplyResult per job, jobs cancelled before acceptance, modes plain / linked / response dropped; accept '
+                     'callbacks that cancel their own job or raise, _cancel() landing in the timeout hook while _ack runs) enumerated '
+                     'and random; parent lists with the same late cancellations; 2 (thorough 4) scenarios on a real Pool with a real worker process; non-trivial = at least two '
                      'jobs / two parent events; distinct by canonical JSON'
                      % (3 if full else 2),
                 worker_cases=len(wcases), parent_cases=len(pcases), input_histogram=hist)
@@ -854,7 +935,7 @@ def replay(path):
                 print('monitor:', sig, '--', what)
             print('model:', model_eval('Worker.workloop_s %s (Worker.hs_ins %s %s %s %s)' % (
                 c_cfg(c), c_pcfg(dict(c, job_known=True)), cbool(c['mode'] == 'linked'), c_cfg(c),
-                clist(c['ins'], c_hinev))))
+                clist(c['ins'], lambda e: c_hinev(e, c['accept_cb'])))))
         elif c['kind'] == 'w':
             for sig, what in monitors(c, out):
                 print('monitor:', sig, '--', what)
@@ -862,7 +943,7 @@ def replay(path):
                                                             c_cfg(c), clist(c['ins'], c_inev))))
         else:
             print('model:', model_eval('Worker.p_run %s (Worker.ar_init %s) %s' % (
-                c_pcfg(c), c_pcfg(c), clist(c['evs'], c_pev))))
+                c_pcfg(c), c_pcfg(c), clist(c['evs'], lambda e: c_pev(e, c['accept_cb'])))))
         try:
             codes, _ = core.coq_eval('C03r', HEADER, [[to_coq(c, out)]])
         except Unrepresentable as exc:
